@@ -179,7 +179,19 @@ def _rw_map_filter_enumerate(text):
     return new, 1
 
 
+def _rw_extend_chunk(text):
+    # RW25: `collected.extend(chunk<adaptor chain>);` -> `extend_chunk(&mut collected, chunk);`
+    return re.subn(r'collected\.extend\(\s*chunk\b[^;]*?\);', 'extend_chunk(&mut collected, chunk);', text, flags=re.S)
+
+
+def _rw_values_collect(text):
+    # RW26: `iter.values()<adaptor chain>.collect()` -> `values_collect(iter)` (whole chunk-size-1 arm assumed, T6)
+    return re.subn(r'iter\s*\.values\(\)[^;{}]*?\.collect\(\)', 'values_collect(iter)', text, flags=re.S)
+
+
 REWRITES = {
+    'RW25': ('collected.extend(chunk<chain>) -> extend_chunk(&mut collected, chunk) (assumption T6: appends the survivors of the chunk, keeps what is there)', _rw_extend_chunk),
+    'RW26': ('iter.values()<chain>.collect() -> values_collect(iter) (chunk-size-1 arm of this kernel is a single std adaptor chain: assumed, T6)', _rw_values_collect),
     'RW24': ('for (i, v) in chunk.values.map(map).filter(filter).enumerate() -> explicit counter over an assumed map+filter iterator (T6)', _rw_map_filter_enumerate),
     'RW22': ('iter.ids_and_values()<chain>.for_each(..) -> ids_values_for_each(iter) (chunk-size-1 arm of map_col::task is one std adaptor chain: assumed, T6; covered by the bounded Kani harnesses)', _rw_ids_values_for_each),
     'RW23': ('chunk.values.map(&map) -> mapped(chunk.values, map) (std Map adaptor)', _rw_values_map),
